@@ -189,7 +189,11 @@ class SMUserList(UserList, ABC):
 
         elif isinstance(arg, (list, tuple)):
             # it's a list of things
-            if isinstance(arg[0], np.ndarray):
+            if len(arg) == 0:
+                # an empty list gives an object with no values, as an empty slice of a list does
+                self.data = []
+
+            elif isinstance(arg[0], np.ndarray):
                 # possibly a list of numpy arrays
                 self.data = [self._import(x, check=check) for x in arg]
 
